@@ -470,7 +470,7 @@ expandfunc(struct macro *m)
 	struct macroarg *arg;
 	struct array str, tok;
 	size_t i, depth, paren;
-	struct token *t;
+	struct token *t, cur;
 
 	/* read macro arguments */
 	paren = 0;
@@ -500,9 +500,12 @@ expandfunc(struct macro *m)
 				if (p->flags & PARAMSTR)
 					stringize(&str, t);
 			}
-			if (p->flags & PARAMTOK && !expand(t)) {
-				arrayaddbuf(&tok, t, sizeof(*t));
-				++arg[i].ntoken;
+			if (p->flags & PARAMTOK) {
+				cur = *t;
+				if (!expand(&cur)) {
+					arrayaddbuf(&tok, &cur, sizeof(cur));
+					++arg[i].ntoken;
+				}
 			}
 			t = rawnext();
 		}
@@ -628,11 +631,15 @@ keyword(struct token *tok)
 void
 next(void)
 {
-	struct token *t;
+	struct token t;
 
-	do t = rawnext();
-	while (expand(t) || t->kind == TNEWLINE && !(ppflags & PPNEWLINE));
-	tok = *t;
+	/*
+	expand() may mark the token as hidden, and peekparen() may
+	reuse the storage rawnext() returned, so work on a copy.
+	*/
+	do t = *rawnext();
+	while (expand(&t) || t.kind == TNEWLINE && !(ppflags & PPNEWLINE));
+	tok = t;
 	if (tok.kind == TIDENT)
 		keyword(&tok);
 }
